@@ -107,6 +107,9 @@ def run(model, res, tier):
         H.borrow(res, 'R11', 'date converters', lambda tmp: c13._r2(model, tmp, c, um[-1]))
     m, f = acts['arith']
     region = c.cg.reachable([(m.name, m.qualname_of(f))])
+    res.rule('R12', 'a text literal is the text that was written: the formula is not transformed as a whole (case mapping, translate, replace, regex substitution, normalisation) in front of the lexer (shared with C05.R9)')
+    from . import c05 as _c05
+    H.borrow(res, 'R12', 'formula text', lambda tmp: _c05.literal_text_rule(model, tmp, c, 'R12', 'a text operand of & or of an arithmetic operator'))
     purity.check_region(res, c, 'R10', None, region, 'arithmetic')
     purity.check_memo(res, c, 'R10', region, 'a function on the arithmetic path')
 
